@@ -131,15 +131,27 @@ Theorem c26_zero_request_refuted :
 Proof. exact c26_zero_request_refuted_lemma. Qed.
 Print Assumptions c26_zero_request_refuted.
 
-(* not ops_wf: a record of MaxMsgLen + 1 bytes is accepted by put; get reads it into
-   char buff[8192] (None = overrun); the memory persister has no such limit *)
-Theorem c26_overlong_refuted :
+(* Records of ANY length (no ops_wf): since a3cf082 a put longer than MaxMsgLen = 8192 is a refused
+   put -- the file persister's results are the contract's results on [clip ops], the sequence in
+   which every such put is replaced by a refused one; in particular no call overruns a buffer. *)
+Theorem c26_file_refines_anylen : forall ops,
+  forallb op_bounded ops = true -> N.of_nat (length ops) < LIM ->
+  zero_free ops = true -> reopen_safe ops = true ->
+  file_outputs ops = Some (spec_outputs (clip ops)).
+Proof. exact c26_file_refines_anylen_lemma. Qed.
+Print Assumptions c26_file_refines_anylen.
+
+(* The code BEFORE a3cf082 (repaired): put accepted a record of MaxMsgLen + 1 bytes and get read
+   it into char buff[8192] (None = overrun); now the put is refused, a later put of the same number
+   is accepted; the memory persister has no limit. *)
+Theorem c26_overlong_orig_refuted :
   zero_free overlong_ops = true /\ reopen_safe overlong_ops = true /\ ops_wf overlong_ops = false /\
-  file_outputs overlong_ops = None /\
-  spec_outputs overlong_ops = [RBool true; RBytes (Some big_rec)] /\
+  file_outputs_orig overlong_ops = None /\
+  file_outputs overlong_ops = Some [RBool false; RBytes None; RBool true; RBytes (Some [66])] /\
+  c26_ok_file overlong_ops (file_outputs overlong_ops) = true /\
   mem_outputs overlong_ops = Some (spec_outputs overlong_ops).
-Proof. exact c26_overlong_refuted_lemma. Qed.
-Print Assumptions c26_overlong_refuted.
+Proof. exact c26_overlong_orig_refuted_lemma. Qed.
+Print Assumptions c26_overlong_orig_refuted.
 
 (* Non-vacuity: an 18-operation history (accepted, duplicate and zero puts, a reopen, a search, an
    aborted and two complete ranges, the control record read, replaced and read again) meets the
